@@ -58,6 +58,12 @@ def run(ctx, rep):
     count_rule(facts, rep)
     exact_rule(facts, rep)
     eof_rule(facts, rep)
+    # adapters with position state: the result must not depend on how the caller slices its reads
+    if facts.find(r"^aes_ctr::AesCtrZipKeyStream"):
+        from rules.C16 import ctr_rules
+        ctr_rules(facts, rep)          # reported as C09/C16-CTR: the keystream position advances by exactly what was consumed
+    from rules.C10 import drain_rules
+    drain_rules(facts, rep)            # reported as C09/C10-DRAIN: the drop-time drain tolerates short reads (ends on Ok(0) only)
     rep.floor("C09-COUNT", 12, "6 impl Read + 3 impl Write adapters, several obligations each")
     rep.floor("C09-EXACT", 9, "7 bare read + 4 bare write sites on the pinned tree")
     rep.assume("std::io::Read/Write contracts; byteorder's read_uN/write_uN are read_exact/write_all")
